@@ -161,7 +161,11 @@ def make_test(i, outcome, kind, stop_hook=None, tid=None):
 
 def x_hist(ctx, case):
     # ("leaf_none": the underlying results were made with failfast=None, as testtools.run makes its own by default)
-    b = build(case["stack"], True if case["failfast"] == "leaf" else (None if case.get("leaf_none") else False))
+    try:
+        b = build(case["stack"], True if case["failfast"] == "leaf" else (None if case.get("leaf_none") else False))
+    except Exception as e:  # noqa - constructing testtools' own results over each other: that is the violation
+        ctx.check(False, "failfast.settable-on-outermost", {"stack": case["stack"], "constructing the stack raised": repr(e)})
+        return True
     top = b.top
     is_stream = case["stack"] == "E2S"
     if case["failfast"] == "top":
